@@ -1,6 +1,7 @@
 package main
 
 import (
+	"go/constant"
 	"os"
 	"fmt"
 	"go/token"
@@ -47,6 +48,18 @@ func rulesC05(p *Prog, r *Report) {
 				if c, ok := in.(*ssa.Call); ok && c.Call.StaticCallee() == parseOp && len(c.Call.Args) == 2 {
 					if s, ok := constString(c.Call.Args[1]); ok {
 						asked[s] = c.Pos()
+					} else if prm, isPrm := c.Call.Args[1].(*ssa.Parameter); isPrm {
+						// a helper that probes for the operator it is given: the constants its call sites pass
+						cs, ok := paramConsts(p, prm)
+						if !ok {
+							r.Unknown("G1", "parseOperator argument", p.pos(c.Pos()), "kind=undecided: operator requested by the parser is not a constant")
+							continue
+						}
+						for _, k := range cs {
+							if k.Value.Kind() == constant.String {
+								asked[constant.StringVal(k.Value)] = c.Pos()
+							}
+						}
 					} else if ss, ok := constStringSet(c.Call.Args[1], 0); ok {
 						// an operator taken from a local constant table (e.g. a list of misplaced operators)
 						for _, s := range ss {
